@@ -105,6 +105,16 @@ where
 {
     /// reserve a robin-hood table capable of holding at least `sz` elements
     pub fn new() -> BackedRobinhoodTable<'a, T> {
+        #[cfg(feature = "verif-hooks")]
+        if let Some(cap) = crate::verif_hooks::unique_table_capacity() {
+            return BackedRobinhoodTable {
+                tbl: vec![HashTableElement::default(); cap],
+                alloc: Bump::new(),
+                cap,
+                len: 0,
+                hits: 0,
+            };
+        }
         let v: Vec<HashTableElement<T>> = vec![HashTableElement::default(); DEFAULT_SIZE];
 
         BackedRobinhoodTable {
@@ -133,6 +143,8 @@ where
 
     /// Expands the capacity of the hash table
     pub fn grow(&mut self) {
+        #[cfg(feature = "verif-hooks")]
+        crate::verif_hooks::note_table_grow();
         let new_sz = (self.cap + 1).next_power_of_two();
         self.cap = new_sz;
         let old = mem::replace(&mut self.tbl, vec![HashTableElement::default(); new_sz]);
